@@ -59,10 +59,13 @@ pub struct SuccinctBitVector {
     /// superblock_ranks[i] = number of 1-bits in [0, i * SUPERBLOCK_BITS).
     superblock_ranks: Vec<u32>,
 
-    /// Relative rank within superblock for each block.
-    /// block_ranks[i] = number of 1-bits from superblock start to block i start.
-    /// Uses u8 since max value is SUPERBLOCK_BITS - BLOCK_BITS = 448.
+    /// Relative rank for each block, counted from the start of its half-superblock
+    /// (4 blocks): at most 3 * 64 = 192, so it fits a u8. (Counted from the superblock
+    /// start it reaches 448 and would wrap.)
     block_ranks: Vec<u8>,
+
+    /// Number of 1-bits in the first half (first 4 blocks) of each superblock.
+    half_ranks: Vec<u16>,
 
     /// Sample positions for select1.
     /// select1_samples[i] = position of (i * SELECT_SAMPLE_RATE)-th 1-bit.
@@ -94,6 +97,8 @@ impl SuccinctBitVector {
 
         let mut superblock_ranks = Vec::with_capacity(num_superblocks);
         let mut block_ranks = Vec::with_capacity(num_blocks);
+        let mut half_ranks: Vec<u16> = Vec::with_capacity(num_superblocks);
+        let mut half_start_ones: u32 = 0;
         let mut select1_samples = Vec::new();
         let mut select0_samples = Vec::new();
 
@@ -112,8 +117,16 @@ impl SuccinctBitVector {
                 superblock_start_ones = cumulative_ones;
             }
 
-            // Store relative rank within superblock
-            let relative_rank = cumulative_ones - superblock_start_ones;
+            // Start of a half-superblock?
+            if block_idx % (BLOCKS_PER_SUPERBLOCK / 2) == 0 {
+                if block_idx % BLOCKS_PER_SUPERBLOCK != 0 {
+                    half_ranks.push((cumulative_ones - superblock_start_ones) as u16);
+                }
+                half_start_ones = cumulative_ones;
+            }
+
+            // Store relative rank within the half-superblock
+            let relative_rank = cumulative_ones - half_start_ones;
             block_ranks.push(relative_rank as u8);
 
             // Count bits in this word
@@ -157,6 +170,7 @@ impl SuccinctBitVector {
             inner,
             superblock_ranks,
             block_ranks,
+            half_ranks,
             select1_samples,
             select0_samples,
             ones_count: cumulative_ones as usize,
@@ -240,7 +254,7 @@ impl SuccinctBitVector {
 
         // Add block relative count
         if block_idx < self.block_ranks.len() {
-            rank += self.block_ranks[block_idx] as usize;
+            rank += self.block_rank_in_superblock(block_idx);
         }
 
         // Add popcount within the current word
@@ -309,7 +323,7 @@ impl SuccinctBitVector {
 
         let mut block_idx = block_start;
         for i in block_start..block_end {
-            let block_rank = superblock_base_rank + self.block_ranks[i] as usize;
+            let block_rank = superblock_base_rank + self.block_rank_in_superblock(i);
             if block_rank >= target_rank {
                 break;
             }
@@ -317,7 +331,7 @@ impl SuccinctBitVector {
         }
 
         // Linear scan within the block
-        let block_base_rank = superblock_base_rank + self.block_ranks[block_idx] as usize;
+        let block_base_rank = superblock_base_rank + self.block_rank_in_superblock(block_idx);
         let remaining = k - block_base_rank;
 
         if block_idx >= self.inner.data().len() {
@@ -371,6 +385,19 @@ impl SuccinctBitVector {
         } else {
             None
         }
+    }
+
+    /// Number of 1-bits from the start of the superblock to the start of block `block_idx`.
+    fn block_rank_in_superblock(&self, block_idx: usize) -> usize {
+        let in_superblock = block_idx % BLOCKS_PER_SUPERBLOCK;
+        let half = if in_superblock >= BLOCKS_PER_SUPERBLOCK / 2 {
+            self.half_ranks
+                .get(block_idx / BLOCKS_PER_SUPERBLOCK)
+                .map_or(0, |r| *r as usize)
+        } else {
+            0
+        };
+        half + self.block_ranks[block_idx] as usize
     }
 
     /// Binary search for the superblock containing the target rank.
@@ -430,6 +457,7 @@ impl SuccinctBitVector {
     pub fn auxiliary_size_bytes(&self) -> usize {
         self.superblock_ranks.len() * 4
             + self.block_ranks.len()
+            + self.half_ranks.len() * 2
             + self.select1_samples.len() * 4
             + self.select0_samples.len() * 4
     }
